@@ -25,7 +25,7 @@ Fixpoint spec_globals (opts : list gopt) (acc : list (mwid * N)) : option (list 
   | GMw ms :: r => if has_nil ms then None else spec_globals r (acc ++ map (fun f => (f, AllHandlers)) (somes ms))
   | GMwFor sc ms :: r => if has_nil ms then None else spec_globals r (acc ++ map (fun f => (f, sc)) (somes ms))
   | GDefault :: r => spec_globals r ((Recovery, RouteHandler) :: (Logger, AllHandlers) :: acc)
-  | GOther :: r => spec_globals r acc
+  | (GOther | GFlag _ _ | GCustomH _) :: r => spec_globals r acc
   end.
 
 (* events of a request going through middleware fs (outermost first) around h *)
@@ -36,49 +36,53 @@ Definition scoped (globals : list (mwid * N)) (k : kind) : list mwid :=
 
 Definition seen_of (t : trace) (k : kind) : option N := match t with [] => None | _ => Some (scope_const k) end.
 
-(* the abstract route table: key -> (handler id, route-specific middleware of the LAST successful Handle/Update) *)
-Definition stab := list (nat * (nat * list mwid)).
-Fixpoint slookup (key : nat) (t : stab) : option (nat * list mwid) :=
+(* the abstract route table: key -> (handler id, route-specific middleware, (redirect, ignore)) of the LAST successful Handle/Update *)
+Definition sval := (nat * list mwid * (bool * bool))%type.
+Definition stab := list (nat * sval).
+Fixpoint slookup (key : nat) (t : stab) : option sval :=
   match t with [] => None | (k, v) :: r => if Nat.eqb k key then Some v else slookup key r end.
-Fixpoint sreplace (key : nat) (v : nat * list mwid) (t : stab) : stab :=
+Fixpoint sreplace (key : nat) (v : sval) (t : stab) : stab :=
   match t with [] => [] | (k, w) :: r => if Nat.eqb k key then (k, v) :: r else (k, w) :: sreplace key v r end.
 
-Definition serve_trace (globals : list (mwid * N)) (k : kind) (rt : option (nat * list mwid)) : obs :=
+(* what the base handler of kind k emits under these options *)
+Definition base_of (opts : list gopt) (k : kind) : trace := if custom_of opts k then base_trace k else [].
+
+Definition serve_trace (opts : list gopt) (globals : list (mwid * N)) (s : shape) (rt : option sval) : obs :=
+  let k := dispatch (cfg_of opts) (option_map snd rt) s in
   match k, rt with
-  | KRoute, Some (hid, rids) => let t := expected (scoped globals KRoute ++ rids) [Run hid] in ObsTrace t (seen_of t KRoute)
-  | KNoRoute, _ | _, None => let t := expected (scoped globals KNoRoute) (base_trace KNoRoute) in ObsTrace t (seen_of t KNoRoute)
-  | k, Some _ => let t := expected (scoped globals k) (base_trace k) in ObsTrace t (seen_of t k)
+  | KRoute, Some (hid, rids, _) => let t := expected (scoped globals KRoute ++ rids) [Run hid] in ObsTrace t (seen_of t KRoute)
+  | k, _ => let t := expected (scoped globals k) (base_of opts k) in ObsTrace t (seen_of t k)
   end.
 
-Definition spec_op (globals : list (mwid * N)) (t : stab) (o : op) : stab * obs :=
+Definition spec_op (opts : list gopt) (globals : list (mwid * N)) (t : stab) (o : op) : stab * obs :=
   match o with
-  | OHandle key hid ms =>
+  | OHandle key hid ms ts =>
       if has_nil ms then (t, ObsErr (Some ErrInvalidConfig))
       else match slookup key t with
            | Some _ => (t, ObsErr (Some ErrRouteExist))
-           | None => ((key, (hid, somes ms)) :: t, ObsErr None)
+           | None => ((key, (hid, somes ms, route_flags (cfg_of opts) ts)) :: t, ObsErr None)
            end
-  | OUpdate key hid ms =>
+  | OUpdate key hid ms ts =>
       if has_nil ms then (t, ObsErr (Some ErrInvalidConfig))
       else match slookup key t with
            | None => (t, ObsErr (Some ErrRouteNotFound))
-           | Some _ => (sreplace key (hid, somes ms) t, ObsErr None)
+           | Some _ => (sreplace key (hid, somes ms, route_flags (cfg_of opts) ts) t, ObsErr None)
            end
-  | OServe k key => (t, serve_trace globals k (slookup key t))
+  | OServe s key => (t, serve_trace opts globals s (slookup key t))
   | ORouteHandle key =>
-      (t, match slookup key t with Some (hid, _) => ObsTrace [Run hid] None | None => ObsNoRoute end)
+      (t, match slookup key t with Some (hid, _, _) => ObsTrace [Run hid] None | None => ObsNoRoute end)
   | ORouteHandleMw key =>
-      (t, match slookup key t with Some (hid, rids) => ObsTrace (expected rids [Run hid]) None | None => ObsNoRoute end)
+      (t, match slookup key t with Some (hid, rids, _) => ObsTrace (expected rids [Run hid]) None | None => ObsNoRoute end)
   end.
 
-Fixpoint spec_ops (globals : list (mwid * N)) (t : stab) (ops : list op) : list obs :=
+Fixpoint spec_ops (opts : list gopt) (globals : list (mwid * N)) (t : stab) (ops : list op) : list obs :=
   match ops with
   | [] => []
-  | o :: r => let '(t', b) := spec_op globals t o in b :: spec_ops globals t' r
+  | o :: r => let '(t', b) := spec_op opts globals t o in b :: spec_ops opts globals t' r
   end.
 
 Definition spec_run (gopts : list gopt) (ops : list op) : result :=
   match spec_globals gopts [] with
   | None => RNewErr ErrInvalidConfig
-  | Some globals => RRun (spec_ops globals [] ops)
+  | Some globals => RRun (spec_ops gopts globals [] ops)
   end.
